@@ -37,6 +37,8 @@ def parse_events(xml_bytes):
                 if ch.tag == "attributes":
                     if ch.find("divisions") is not None:
                         evs.append({"ev": "divisions", "d": int(ch.find("divisions").text)})
+                    if ch.find("staves") is not None:
+                        evs.append({"ev": "attr", "kind": "staves", "a": int(ch.find("staves").text), "b": 0, "c": 0})
                     for k in ch.findall("key"):
                         evs.append({"ev": "attr", "kind": "key", "a": int(txt(k, "fifths", "0")), "b": 0, "c": 0})
                     for t in ch.findall("time"):
@@ -210,9 +212,11 @@ def decorate(score, rng, part, level):
             part.add(score.Fermata("right"), ms[rng.randrange(len(ms))].end.t)
             used.add("barline_fermata")
         if rng.random() < 0.3:
-            t = ms[rng.randrange(1, len(ms))].start.t
-            part.add(score.Clef(1, rng.choice(["F", "C", "G"]), rng.choice([2, 3, 4]), 0), t)
-            used.add("clef_change")
+            # at a barline or in the middle of a measure
+            t = ms[rng.randrange(1, len(ms))].start.t if (rng.random() < 0.5 or not onsets) else rng.choice(onsets)
+            if t > 0:
+                part.add(score.Clef(1, rng.choice(["F", "C", "G"]), rng.choice([2, 3, 4]), 0), t)
+                used.add("clef_change")
         if rng.random() < 0.3:
             t = ms[rng.randrange(1, len(ms))].start.t
             old = [k.fifths for k in part.iter_all(score.KeySignature)]
